@@ -182,9 +182,6 @@ def main():
     return rows
 
 
-if __name__ == "__main__":
-    for mi, clears, writes in main():
-        print("%-6s %-22s clears=%-5s live=%-5s query=%-5s writes=%s storesAlways=%s" % (mi.cls, mi.name, clears, mi.live, mi.query, writes, sorted(mi.stores_always)))
 
 
 # ------------------------------------------------------------------------------------------------
@@ -279,15 +276,128 @@ def guards():
     return rows
 
 
+
+# ---------------------------------------------------------------------------------------------
+# C15: the time scale, the derivative scale and the power->Bernstein matrix of add_inf_constraints
+def _norm(src):
+    return src.replace(" ", "")
+
+
+PER_STEP = "(self.control_grid[k+1]-self.control_grid[k])/self.M"
+UNIFORM_STEP = "self.T/self.N/self.M"
+
+
+def _classify_scale(node):
+    if node is None:
+        return "other"
+    src = _norm(ast.unparse(node))
+    if src == PER_STEP:
+        return "perStep"
+    if src == UNIFORM_STEP:
+        return "uniformStep"
+    return "other"
+
+
+def infcert():
+    path = os.path.join(REPO, "rockit", "sampling_method.py")
+    tree = ast.parse(open(path).read())
+    fn = _find_function(tree, "SamplingMethod", "add_inf_constraints")
+    assigns = {}
+    matrix = None
+    uses = {"tpower_uses_tscale": False, "coeff_scaled_by_tpower": False, "der_divided_by_dt": False,
+            "matrix_applied_to_coeff": False, "placed_at_control_k": False}
+    if fn is not None:
+        for node in ast.walk(fn):
+            if isinstance(node, ast.Assign) and len(node.targets) == 1 and isinstance(node.targets[0], ast.Name):
+                name = node.targets[0].id
+                assigns.setdefault(name, []).append(node.value)
+                src = _norm(ast.unparse(node.value))
+                if name == "tpower" and src == "vcat([tscale**iforiinrange(degree+1)])":
+                    uses["tpower_uses_tscale"] = True
+                if name == "coeff" and src == "coeff*repmat(tpower.T,stage.nx,1)":
+                    uses["coeff_scaled_by_tpower"] = True
+                if name == "state_coeff" and src == "mtimes(Poly_to_Bernstein_matrix_4,coeff.T)":
+                    uses["matrix_applied_to_coeff"] = True
+                if name == "Poly_to_Bernstein_matrix_4":
+                    try:
+                        call = node.value
+                        lit = call.args[0]
+                        matrix = [[_const_fraction(e) for e in row.elts] for row in lit.elts]
+                    except Exception:
+                        matrix = None
+            if isinstance(node, ast.AugAssign) and isinstance(node.target, ast.Name) and node.target.id == "subst_to":
+                if _norm(ast.unparse(node.value)) == "[lookup[e].derivative()*(1/dt)foreinstage._inf_der.values()]":
+                    uses["der_divided_by_dt"] = True
+            if isinstance(node, ast.Call) and _norm(ast.unparse(node)) == "opti.subject_to(self.eval_at_control(stage,c_spline,k),meta=meta)":
+                uses["placed_at_control_k"] = True
+    tscale = _classify_scale(assigns.get("tscale", [None])[-1]) if len(assigns.get("tscale", [])) == 1 else "other"
+    dt = _classify_scale(assigns.get("dt", [None])[-1]) if len(assigns.get("dt", [])) == 1 else "other"
+    L = ["/-! GENERATED by tools/extract.py from /repo/rockit/sampling_method.py (SamplingMethod.add_inf_constraints, line %d) — do not edit. -/" % (getattr(fn, "lineno", 0)),
+         "namespace Rockit.Generated", "",
+         "inductive ScaleKind where", "  /-- `(control_grid[k+1]-control_grid[k])/M`: the length of the integrator step -/", "  | perStep",
+         "  /-- `T/N/M`: the average step (equal to the step only on uniform grids) -/", "  | uniformStep", "  | other",
+         "deriving DecidableEq, Repr", "",
+         "/-- the `tscale` the state polynomial's argument is multiplied by -/", "def infTscale : ScaleKind := .%s" % tscale, "",
+         "/-- the `dt` an `inf_der` operand's derivative is divided by -/", "def infDerDt : ScaleKind := .%s" % dt, "",
+         "/-- the steps of `add_inf_constraints` that use them, each in the expected shape -/"]
+    for k, v in uses.items():
+        L.append("def %s : Bool := %s" % (_camel(k), str(v).lower()))
+    L += ["", "/-- the literal `Poly_to_Bernstein_matrix_4` as `(numerator, denominator)` pairs (exact rational value of each literal expression) -/",
+          "def polyToBernstein4 : List (List (Int × Nat)) := ["]
+    if matrix is None:
+        L.append("]")
+    else:
+        for i, row in enumerate(matrix):
+            L.append("  [" + ", ".join("(%d, %d)" % (f.numerator, f.denominator) for f in row) + "]" + ("," if i < len(matrix) - 1 else ""))
+        L.append("]")
+    L += ["", "end Rockit.Generated", ""]
+    path = os.path.join(OUT, "InfCert.lean")
+    new_src = "\n".join(L)
+    if not os.path.exists(path) or open(path).read() != new_src:
+        open(path, "w").write(new_src)
+    return tscale, dt, uses, matrix
+
+
+def _camel(s):
+    parts = s.split("_")
+    return "inf" + "".join(p.capitalize() for p in parts)
+
+
+def _const_fraction(node):
+    """exact rational value of a numeric literal expression such as `1.0/4` (decimal literals read exactly;
+    the rounding of the quotient to a double is floating point, which the model does not describe)"""
+    from fractions import Fraction
+    if isinstance(node, ast.Constant) and isinstance(node.value, (int, float)):
+        return Fraction(repr(node.value))
+    if isinstance(node, ast.UnaryOp) and isinstance(node.op, ast.USub):
+        return -_const_fraction(node.operand)
+    if isinstance(node, ast.BinOp):
+        a, b = _const_fraction(node.left), _const_fraction(node.right)
+        if isinstance(node.op, ast.Div):
+            return a / b
+        if isinstance(node.op, ast.Mult):
+            return a * b
+        if isinstance(node.op, ast.Add):
+            return a + b
+        if isinstance(node.op, ast.Sub):
+            return a - b
+    raise ValueError("not a numeric literal expression")
+
+
 _main_inval = main
 
 
 def main():
     rows = _main_inval()
     guards()
+    infcert()
     return rows
 
 
-if __name__ == "__main__" and len(sys.argv) > 1 and sys.argv[1] == "guards":
-    for r in guards():
-        print(r)
+if __name__ == "__main__":
+    if len(sys.argv) > 1 and sys.argv[1] == "guards":
+        for r in guards():
+            print(r)
+    else:
+        for mi, clears, writes in main():
+            print("%-6s %-22s clears=%-5s live=%-5s query=%-5s writes=%s storesAlways=%s" % (mi.cls, mi.name, clears, mi.live, mi.query, writes, sorted(mi.stores_always)))
